@@ -4,7 +4,7 @@
    in order, for every indent and width; at string level under [comment_safe], and the
    unconditional string-level statement is refuted (K2); idempotence of the re-wrapper is refuted
    (K1).  Idempotence of the whole formatter, and `parse (format t)`, are explored, not proved. *)
-From C11 Require Import CommentSpec CommentProofs CommentWords.
+From C11 Require Import CommentSpec CommentProofs CommentWords LineBreak LineBreakTerm LineBreakTokens.
 
 (* The lines format_leading_comment appends ([fmt_lines], before they are rendered) carry exactly
    the words of the input comment, each with the comment kind (#slashes, #exclamation marks) of
@@ -48,6 +48,89 @@ Proof.
   vm_compute. discriminate.
 Qed.
 
+(* ---- the line breaker (LineBuilder::build) ----
+   [items_l]: the code tokens (non-blank Token components), the break points marked
+   is_comma_if_broken, and the comments of a tree, in order, protected zones flattened.
+   [evolves a b]: b is a with every comma point dropped, kept, or replaced by the token ",";
+   every trailing comment unchanged; every leading comment passed through
+   format_leading_comment zero or more times; nothing else added, lost or reordered. *)
+
+(* C09: the two loops of break_line_tree run on the fuel [S (mu self)] (mu = number of break
+   points and protected zones anywhere in the tree) and never exhaust it: build returns for every
+   LineBuilder, width and tab size -- no hypothesis on the tree. *)
+Theorem C09_linebreak_terminates : forall alnum max_line_width tab_size (self : builder),
+  build alnum max_line_width tab_size self <> None.
+Proof. exact build_total. Qed.
+
+(* the same with the measure explicit: any fuel above the measure is enough *)
+Theorem C09_linebreak_measure : forall alnum max_line_width tab_size fuel (self : builder),
+  (mu_l (children self) < fuel)%nat ->
+  break_line_tree alnum max_line_width tab_size fuel self <> None.
+Proof. exact break_line_tree_fuel. Qed.
+
+(* For every tree whose protected zones are all closed (what format_node hands over; checked
+   on every dumped tree), every width and tab size -- i.e. whatever break choice the search
+   makes: the final lines ([blt_leaves], the builders whose to_string() are the output lines)
+   carry exactly the items of the tree after [evolves]. *)
+Theorem C11_tokens_preserved : forall alnum max_line_width tab_size fuel (self : builder) leaves,
+  closed_l (children self) = true ->
+  blt_leaves alnum max_line_width tab_size fuel self = Some leaves ->
+  evolves alnum max_line_width (items_l (children self)) (carried leaves)
+  /\ break_line_tree alnum max_line_width tab_size fuel self = Some (map bshow leaves).
+Proof.
+  intros alnum w tab fuel self leaves Hc H. split.
+  - exact (blt_leaves_carried alnum w tab fuel self leaves Hc H).
+  - rewrite blt_leaves_show, H. reflexivity.
+Qed.
+
+(* the code tokens of the output lines are the code tokens of the tree, in order, with a ","
+   at some of the is_comma_if_broken points *)
+Theorem C11_tokens_preserved_list : forall alnum max_line_width tab_size fuel (self : builder) leaves,
+  closed_l (children self) = true ->
+  blt_leaves alnum max_line_width tab_size fuel self = Some leaves ->
+  comma_ins (items_l (children self)) (toks (carried leaves)).
+Proof.
+  intros alnum w tab fuel self leaves Hc H. eapply evolves_toks. exact (blt_leaves_carried alnum w tab fuel self leaves Hc H).
+Qed.
+
+(* the comments of the output lines are the comments of the tree, in order; trailing comments
+   are untouched, leading comments were passed through format_leading_comment *)
+Theorem C11_comments_preserved : forall alnum max_line_width tab_size fuel (self : builder) leaves,
+  closed_l (children self) = true ->
+  blt_leaves alnum max_line_width tab_size fuel self = Some leaves ->
+  Forall2 (fun x y => snd x = snd y /\ cmt_rel alnum max_line_width (snd x) (fst x) (fst y))
+          (cmts (items_l (children self))) (cmts (carried leaves)).
+Proof.
+  intros alnum w tab fuel self leaves Hc H. apply evolves_cmts. exact (blt_leaves_carried alnum w tab fuel self leaves Hc H).
+Qed.
+
+(* down to the characters: the string build returns, whitespace removed, spells exactly the
+   evolved items *)
+Theorem C11_build_string : forall alnum max_line_width tab_size (self : builder) out,
+  closed_l (children self) = true ->
+  build alnum max_line_width tab_size self = Some out ->
+  exists its, evolves alnum max_line_width (items_l (children self)) its
+              /\ strip_ws out = strip_ws (texts its).
+Proof. exact build_preserves. Qed.
+
+(* non-vacuity of the line-breaker theorems: `f(aaaa, bbbb)` as the formatter builds it, at
+   width 8: the argument list is broken, the comma point after the last argument gets its "," *)
+Example C11_linebreak_example :
+  let bp o c := Break {| is_empty_line_breakpoint := false; precedence := 3; break_indentation := IndentedWithTail;
+                         is_optional := o; space_if_not_broken := false; is_single_breakpoint := false;
+                         is_comma_if_broken := c |} in
+  let sp := Break {| is_empty_line_breakpoint := false; precedence := 5; break_indentation := NotIndented;
+                     is_optional := true; space_if_not_broken := true; is_single_breakpoint := false;
+                     is_comma_if_broken := false |} in
+  let tree := {| children := [Token [102]; Token [40]; bp true false;
+                              Zone [Token [97;97;97;97]; Token [44]; sp; Token [98;98;98;98]] false [] 1;
+                              bp true true; Token [41]; Token [59]];
+                 is_open := true; pending := [] |} in
+  closed_l (children tree) = true
+  /\ build (fun _ => false) 8 4 tree
+     = Some [102;40;10;32;32;32;32;97;97;97;97;44;10;32;32;32;32;98;98;98;98;44;10;41;59;10].
+Proof. vm_compute. split; reflexivity. Qed.
+
 (* non-vacuity: a two-line comment that is wrapped, merged with its continuation line and is
    prefix-safe *)
 Example C11_example :
@@ -63,3 +146,9 @@ Print Assumptions C11_comment_render.
 Print Assumptions C11_comment_words.
 Print Assumptions C11_comment_words_unsafe_refuted.
 Print Assumptions C11_comment_idempotent_refuted.
+Print Assumptions C09_linebreak_terminates.
+Print Assumptions C09_linebreak_measure.
+Print Assumptions C11_tokens_preserved.
+Print Assumptions C11_tokens_preserved_list.
+Print Assumptions C11_comments_preserved.
+Print Assumptions C11_build_string.
